@@ -36,6 +36,9 @@ def corpus():
 
 
 def gen_cases(tier, seed):
+    # a real interrupt request that arrives WHILE a slow built-in (a shell command inside the scratch dir) is running
+    for j in range(3):
+        yield {"live": j, "delay_ms": [300, 500, 150][j]}
     # kernels first, in few large chunks, so that every kernel is covered at every tick even by a short budget
     for c in range(KCHUNK):
         for path in corpus():
@@ -117,7 +120,74 @@ def run_batch(cases):
     return out
 
 
+def run_live(case, sc):
+    """Interrupt by request while `shell::run` is inside its subprocess, then resume: the command's side effect (one
+    line appended to a file in the scratch dir) must have happened exactly once per call, the output and the final
+    value must be those of the uninterrupted run. Timing only decides WHERE the interrupt lands; whatever the landing
+    point, the expected outcome is the same, so the verdict does not depend on the clock."""
+    import time
+    from .. import session as S
+    log = os.path.join(sc.dir, "effects_%d.log" % case["live"])
+    prog = ('import "__shell.gdn" as sh\n'
+            'println("before")\n'
+            'let r1 = sh::run("bash", ["-c", "echo one >> %s; sleep 1.2; echo out1"])\n'
+            'println("middle")\n'
+            'let r2 = sh::run("bash", ["-c", "echo two >> %s; echo out2"])\n'
+            'println("after")\n'
+            '7 * 6\n') % (log, log)
+    ls = S.LiveSession(cwd=sc.dir)
+    try:
+        got, st = ls.read_until(lambda v: S.resp_kind(v) == "ready", timeout=30)
+        if st != "ok":
+            return {"status": "inconclusive", "key": None, "detail": {"why": "no ready"}}
+        ls.send({"method": "run", "input": prog, "id": 1})
+        time.sleep(case["delay_ms"] / 1000.0 + 0.25)
+        ls.send({"method": "interrupt"})
+        printed, finals, interrupted = [], [], 0
+        deadline = time.time() + 60
+        pending_resumes = 0
+        while time.time() < deadline:
+            part, st = ls.read_until(lambda v: S.resp_kind(v) not in ("printed", "printed_stderr"), timeout=30)
+            for v in part:
+                k = S.resp_kind(v)
+                if k == "printed":
+                    printed.append(S.resp_body(v).get("s") or "")
+            if st != "ok":
+                break
+            v = part[-1]
+            sm = S.summarize(v)
+            if S.resp_kind(v) == "interrupted" and S.resp_body(v).get("stack_frame_name") is None:
+                continue                    # the reader thread's ack
+            if sm[0] == "interrupted" or (sm[0] == "err" and sm[1] == "Interrupted"):
+                interrupted += 1
+                ls.send({"method": "run", "input": ":resume", "id": 10 + interrupted})
+                continue
+            finals.append(sm[:2])
+            break
+        effects = open(log).read().split() if os.path.exists(log) else []
+        detail = {"program": prog, "printed": printed, "final": finals, "interruptions": interrupted, "effects": effects,
+                  "stderr": ls.stderr_text()[-500:]}
+        if not ls.alive() or "panicked at" in ls.stderr_text():
+            return {"status": "violated", "key": None, "sig": "crash-after-interrupt:" + core.panic_sig(ls.stderr_text()), "detail": detail}
+        if not finals:
+            return {"status": "inconclusive", "key": None, "detail": detail}
+        key = "live|interruptions=%d" % min(interrupted, 2)
+        if effects != ["one", "two"]:
+            sig = "side-effect-repeated" if len(effects) > 2 else "side-effect-lost"
+            return {"status": "violated", "key": key, "sig": sig + ":builtin-interrupted-by-request", "detail": detail}
+        if "".join(printed) != "before\nmiddle\nafter\n":
+            return {"status": "violated", "key": key, "sig": "output-differs:builtin-interrupted-by-request", "detail": detail}
+        v = finals[0][1] or ""
+        if finals[0][0] != "ok" or not (v == "42" or v.endswith("evaluated to 42.")):
+            return {"status": "violated", "key": key, "sig": "final-result-differs:builtin-interrupted-by-request", "detail": detail}
+        return {"status": "held", "key": key}
+    finally:
+        ls.close()
+
+
 def run_case(case, sc):
+    if "live" in case:
+        return run_live(case, sc)
     src = source(case)
     r0, resps0, log = run_session(src, [], sc, ticklog=True)
     if r0.cls in core.CRASH:
